@@ -214,3 +214,134 @@ func c08Body(c *run.Ctx) {
 func TestC08(t *testing.T) {
 	run.Property(t, "C08", "c08", c08Stats, run.Scale(20, 200), c08Body)
 }
+
+// scriptedShowdown builds the hooks of a directed first hand: the short stacks shove,
+// `hero` calls and holds the aces; `arrive` is executed once at the first decision.
+func scriptedShowdown(hero string, arrive func(s *sim.Sim)) sim.Hooks {
+	var hooks sim.Hooks
+	arrived := false
+	hooks.Deck = func(s *sim.Sim, n int, short bool) []string {
+		m := sim.GameIDs(s.TE.GetTable())
+		if len(s.Hands) != 1 || len(m) != n {
+			return nil
+		}
+		low := [][]string{{"S2", "H3"}, {"D4", "C6"}, {"H2", "S3"}, {"C5", "D6"}}
+		deck := []string{}
+		k := 0
+		for _, id := range m {
+			if id == hero {
+				deck = append(deck, "SA", "HA")
+			} else {
+				deck = append(deck, low[k%len(low)]...)
+				k++
+			}
+		}
+		deck = append(deck, "C2", "DK", "CQ", "H9", "C3", "S8", "C4", "D7")
+		used := map[string]bool{}
+		for _, c := range deck {
+			used[c] = true
+		}
+		for _, su := range []string{"S", "H", "D", "C"} {
+			for _, pt := range []string{"2", "3", "4", "5", "6", "7", "8", "9", "T", "J", "Q", "K", "A"} {
+				if !used[su+pt] {
+					deck = append(deck, su+pt)
+				}
+			}
+		}
+		return deck
+	}
+	hooks.AtDecision = func(s *sim.Sim, d *sim.Decision) {
+		if d.Kind == "turn" && len(s.Hands) == 1 {
+			p := d.GS.GetPlayer(d.Cur)
+			want := []string{"pass", "allin"}
+			if d.Asked[0] == hero {
+				want = []string{"pass", "call", "check", "allin"}
+			}
+			for _, k := range want {
+				if inList(p.AllowedActions, k) {
+					if err := s.Do(d.Asked[0], k, 0); err == nil {
+						s.SkipAct = true
+					}
+					break
+				}
+			}
+		}
+		if !arrived && len(s.Hands) == 1 && arrive != nil {
+			arrived = true
+			arrive(s)
+		}
+	}
+	return hooks
+}
+
+var c08pStats = ev.New("C08", "c08p")
+
+// TestC08Pinned keeps the recorded wedge demonstrated: 6 seats, A@2 (deep), B@3 and
+// C@1 (short); in a hand with D=2 SB=3 BB=1 two newcomers sit in at seats 4 and 5
+// (between small and big blind: they wait), B and C shove and lose to A. Three
+// seated-in players have chips, the gate fires, the rotation is refused.
+func TestC08Pinned(t *testing.T) {
+	defer c08pStats.Write()
+	const sig = "C08.no-open.rotation-refused.waiting-flag"
+	if run.IsKnown("C08", sig) == nil {
+		return
+	}
+	for attempt := 0; attempt < 60; attempt++ {
+		c := &run.Ctx{Prop: "C08", Check: "c08p", TB: t, St: c08pStats}
+		c.Ch = choose.NewRecorder(choose.NewScriptChooser(nil))
+		func() {
+			defer func() {
+				if r := recover(); r != nil && fmt.Sprint(r) != "{}" {
+					panic(r)
+				}
+			}()
+			cfg := sim.Config{Seats: 6, Rule: pokertable.CompetitionRule_Default, Mode: pokertable.CompetitionMode_CT, MinPlayers: 2,
+				Blind:   pokertable.TableBlindState{Level: 1, SB: 2, BB: 4},
+				Players: []sim.PlayerSpec{{ID: "A", Seat: 2, Chips: 1000, Join: true}, {ID: "B", Seat: 3, Chips: 30, Join: true}, {ID: "C", Seat: 1, Chips: 30, Join: true}}}
+			hooks := scriptedShowdown("A", func(s *sim.Sim) {
+				s.Reserve("N1", 4, 500, "valid")
+				s.Join("N1", "valid")
+				s.Reserve("N2", 5, 500, "valid")
+				s.Join("N2", "valid")
+			})
+			hooks.Opened = func(s *sim.Sim, h *sim.Hand) {
+				st := h.Opened.State
+				if h.N == 1 && !(st.CurrentDealerSeat == 2 && st.CurrentSBSeat == 3 && st.CurrentBBSeat == 1) {
+					s.Stall = "other initial button"
+				}
+			}
+			s := sim.New(c.Ch, cfg, hooks)
+			defer s.Finish()
+			if s.CreateErr != nil || !s.StartFirst(nil) {
+				return
+			}
+			h1 := s.PlayHand(s.PlanSignals(0))
+			if s.Stall != "" || h1.Outcome != "gate" {
+				return
+			}
+			live := sim.LivePlayers(s.Now())
+			h2 := s.PlayHand(s.PlanSignals(0))
+			if h2.Opened == nil && h2.Outcome == "open-refused" && len(live) >= 2 {
+				notWaiting := 0
+				for _, sp := range s.SeatManager().Seats() {
+					if sp != nil && sp.IsIn && sp.HasChips && !sp.IsBetweenDealerBB {
+						notWaiting++
+					}
+				}
+				if notWaiting < 2 {
+					c.Failf(sig, "pinned history: hand 2 did not open although %v are seated-in with chips: %s | seat manager: %s", live, s.Stall, smDump(s.SeatManager()))
+				}
+			}
+		}()
+		for _, k := range c08pStats.Known {
+			if strings.HasSuffix(k, "["+sig+"]") {
+				c08pStats.Add("pinned_attempts_until_demonstrated", int64(attempt+1))
+				c08pStats.Case([]string{"pinned"}, true, "pinned-c08", func() interface{} {
+					return "directed history: A@2 B@3 C@1, D=2 SB=3 BB=1, N1@4 N2@5 arrive and wait, B and C bust -> rotation refused with three live players"
+				})
+				return
+			}
+		}
+	}
+	c08pStats.Add("pinned_not_demonstrated", 1)
+}
